@@ -81,7 +81,7 @@ class Case:
                 g.add_edge(e["u"], e["v"])
         seg = None
         if self.cfg == "seg":
-            seg = np.array(sp["seg"], dtype=np.int64).reshape(self.shape)
+            seg = np.array(sp["seg"], dtype=np.dtype(sp.get("seg_dtype", "int64"))).reshape(self.shape)
         kw: dict[str, Any] = dict(segmentation=seg, scale=self.scale, ndim=self.ndim)
         if self.cfg == "axes":
             kw["pos_attr"] = axis_names(self.ndim)
@@ -105,6 +105,7 @@ class Case:
             g2 = _copy.deepcopy(tracks.graph)
             seg2 = None if tracks.segmentation is None else tracks.segmentation.copy()
             tracks = SolutionTracks(g2, segmentation=seg2, scale=self.scale, ndim=self.ndim, features=fd)
+        tracks._verif_id_base = sp.get("id_base", 0)  # harness-side hint for fresh id choices
         return tracks
 
     # ---- encoding for the model -----------------------------------------------------------
